@@ -81,7 +81,10 @@ def _run_case(tag, n, timeout):
 def coq_tables(tag, prelude, prefix, jobs, chunk=12000, timeout=900, par=8):
     """evaluate every job's table; returns {job index: flat list} ; raises RuntimeError if the libraries do not build"""
     deps = common.prelude_deps(prelude)
-    r = common.build(deps, timeout=900)
+    for attempt in range(4):
+        r = common.build(deps, timeout=900)
+        if r['ok'] or r.get('file'): break          # a located Coq error is real; a bare make failure (concurrent edits elsewhere) is retried
+        time.sleep(5 + 10 * attempt)
     if not r['ok']:
         raise RuntimeError('cannot build %s: %s' % (deps, r['msg']))
     files, cur, cursz = [], [], 0
